@@ -10,10 +10,14 @@
                  re-match of the explicit left side with the same strategy, one glued graph per re-match)
                  then _explicit_h on every glued graph when explicit_h=True
 
-    Nothing new is modelled here: the pieces are the definitions of model/C03_Model.v (rule preparation, glue,
-    hydrogen stages), model/C06_Model.v (the three strategies, VF2 := the verified enumerator lib/Mono.v) and
-    model/C11_Model.v (dedup_aut = deduplicate_matches_by_automorphisms); this file only converts between their
-    graph types and composes them, as the Python code does.  Definitions only; proofs are in proof/C05_*.v.
+    The pieces are the definitions of model/C03_Model.v (rule preparation, glue, hydrogen stages), model/C06_Model.v (the
+    three strategies, VF2 := the verified enumerator lib/Mono.v) and model/C11_Model.v (dedup_aut =
+    deduplicate_matches_by_automorphisms); this file converts between their graph types and composes them, as the
+    Python code does, and models the reactor's own option handling:
+      embed_threshold   -> [eff_thr] / class [Thr] (the cap is a parameter of everything below), [pmax_of] (partial mode)
+      embed_pre_filter  -> [matches_pf], [prefilter_fires]      (first search only; the re-match never uses the guard)
+      partial           -> [partial_matches]                    (PartialMatcher engine: components, combinations, back-tracking)
+    Definitions only; proofs are in proof/C05_*.v.
 
     Order conventions.  VF2's enumeration order is not modelled, so the kept representative of a class of matches
     and the order in which _get_explicit_map expands hydrogens may differ from the implementation's.  Observables
@@ -217,7 +221,9 @@ Definition t_strategy_raw (explicit_stage : bool) (host : hostg) (p : prepared) 
   let show_ex := explicit_stage && negb crashed in
   L [tnat (length raw); tnat (length kept);
      tnat (if (1 <? length raw)%nat then length (rule_auts (p_rc p)) else 0%nat);
-     tnat (length gl); tset (t_result show_ex) gl; tbool crashed].
+     tnat (length gl); tset (t_result show_ex) gl; tbool crashed;
+     (* the raw matches themselves, as a multiset of sets of pairs (the order of the list and of the pairs is VF2's) *)
+     tset (tset (tpair tN tN)) raw].
 Definition t_strategy (explicit_stage : bool) (host : hostg) (p : prepared) (strat : N) : tok :=
   t_strategy_raw explicit_stage host p strat (raw_of strat host p).
 
@@ -354,6 +360,33 @@ Definition run_c05w (invert implicit_temp explicit_stage : bool) (strats : list 
       L [run_c05 invert implicit_temp explicit_stage strats (map (fun w => (fst (fst (fst w)), snd (fst (fst w)))) ws);
          tlist (fun w => tbool (rewriting_okb host0 tpl0 w)) ws]
   end.
+(** ** SynReactor(embed_pre_filter = True): the FIRST search (SynReactor.mappings) hands pre_filter = True to
+    find_subgraph_mappings — a cheap guard that EMPTIES the result when the product of the per-atom candidate counts
+    exceeds threshold * 10000 or some pattern atom has no candidate (C06_Model.quick_pre_filter); the re-match on the
+    explicit-hydrogen path always runs with pre_filter = False (its_list passes embed_pre_filter=False).
+    [matches_pf false] is [matches]. *)
+Definition matches_pf (pref : bool) (strat : N) (host : hostg) (pat : molg) : list mapping :=
+  let H := host_c06 host in let P := pat_c06 pat in
+  C06_Model.find (monos_on' H P) (C06_Model.Cfg strat 0%N thr_val true pref) H P.
+Definition raw_of_pf (pref : bool) (strat : N) (host : hostg) (p : prepared) : list mapping := matches_pf pref strat host (p_pat p).
+Definition kept_of_pf (pref : bool) (strat : N) (host : hostg) (p : prepared) : list mapping := prune (p_rc p) (raw_of_pf pref strat host p).
+Definition glued_of_pf (pref : bool) (strat : N) (host : hostg) (p : prepared) : list its :=
+  flat_map (glue_all strat (p_flag p) host (p_rc p) (p_l p)) (kept_of_pf pref strat host p).
+Definition prefilter_fires (host : hostg) (p : prepared) : bool :=
+  C06_Model.quick_pre_filter (host_c06 host) (pat_c06 (p_pat p)) thr_val.
+
+Definition t_variant_pf (invert implicit_temp explicit_stage : bool) (strats : list N) (v : hostg * its) : tok :=
+  match prepare invert implicit_temp (snd v) with
+  | None => L [I (-1)]
+  | Some p =>
+      L [tbool (p_flag p); tmolg (p_pat p); tbool (prefilter_fires (fst v) p);
+         (* premise of the decision-invariance theorem (proof/C05_PrefilterOrder.v): distinct atoms, simple bond lists *)
+         tbool (C06_Model.wfb (host_c06 (fst v)) && C06_Model.wfb (pat_c06 (p_pat p)));
+         tlist (fun s => t_strategy_raw explicit_stage (fst v) p s (raw_of_pf true s (fst v) p)) strats]
+  end.
+Definition run_c05f_w (invert implicit_temp explicit_stage : bool) (strats : list N) (vs : list (hostg * its)) : tok :=
+  tlist (t_variant_pf invert implicit_temp explicit_stage strats) vs.
+
 (** SynReactor(partial=True).mappings: raw (partial) matches and the matches kept by the symmetry pruning; the raw matches
     are compared as a multiset of sets of pairs (VF2's order is not modelled), the kept ones by their number *)
 Definition t_partial (host : hostg) (p : prepared) (strat : N) : tok :=
@@ -391,3 +424,8 @@ Definition run_c05t (embed_threshold : option N) (invert implicit_temp explicit_
 (** the partial-matching option: one case = the writings of one (template, substrate) pair *)
 Definition run_c05p (embed_threshold : option N) (invert implicit_temp : bool) (strats : list N) (vs : list (hostg * its)) : tok :=
   @run_c05p_w (thr_of embed_threshold) invert implicit_temp strats vs.
+
+(** the pre-filter option (embed_pre_filter = True), with or without a non-default cap *)
+Definition run_c05f (embed_threshold : option N) (invert implicit_temp explicit_stage : bool) (strats : list N)
+           (vs : list (hostg * its)) : tok :=
+  @run_c05f_w (thr_of embed_threshold) invert implicit_temp explicit_stage strats vs.
